@@ -170,7 +170,7 @@ func C20(r *drv.Run) {
 		ntrees, npat = 400, 150
 		plen = 5
 	}
-	r.Rule = fmt.Sprintf("exhaustive: every pattern of length <= %d over {a,b,.,*} with at most 3 stars x a directory holding every name of length <= 4 over {a,b,.} (118 files) and 3 sub-directories with matching names; generated trees of depth <= 3 (names such as a.txt.txt, abxb, .a, and names containing ? [ ] + { } blank backslash, which only '*' may treat specially) with relative and absolute multi-segment patterns, the trees also holding symbolic links to sibling directories and files and regular files with unusual permission bits (000, 200, 111). The selection is also observed end to end: the built command line tool run inside some of the trees with `find top 1 any` (every file holds one byte), alone, with -profile naming a file OUTSIDE the tree that is called like a file inside it, with -replace-mode plus a JSON output file, and with an absolute pattern into a sibling directory whose name begins like the working directory's; the set of file names in its JSON output must be the same set. Every parsed pattern is asked twice (and once from another directory in between): same answer. Crowded and deep directories: one directory holding 255..4 097 (thorough ..20 011) entries, counts on both sides of 256, 1 024, 2 048, 4 096, files and sub-directories mixed, asked with wildcard and literal last and middle segments, and a chain of twelve directory levels asked literally and star by star; floor: a list of more than 2 048 files compared. Oracle: reference glob (segment-wise, backtracking '*') over the harness's own record of the tree; result sets compared after filepath.Clean; duplicates and listed directories are violations. Non-trivial = pattern containing '*' that selects a non-empty proper subset; distinct by (tree, pattern).", plen)
+	r.Rule = fmt.Sprintf("exhaustive: every pattern of length <= %d over {a,b,.,*} with at most 3 stars x a directory holding every name of length <= 4 over {a,b,.} (118 files) and 3 sub-directories with matching names; generated trees of depth <= 3 (names such as a.txt.txt, abxb, .a, and names containing ? [ ] + { } blank backslash, which only '*' may treat specially) with relative and absolute multi-segment patterns, the trees also holding symbolic links to sibling directories and files and regular files with unusual permission bits (000, 200, 111). The selection is also observed end to end: the built command line tool run inside some of the trees with `find top 1 any` (every file holds one byte), alone, with -profile naming a file OUTSIDE the tree that is called like a file inside it, with -replace-mode plus a JSON output file, and with an absolute pattern into a sibling directory whose name begins like the working directory's; the set of file names in its JSON output must be the same set. Every parsed pattern is asked twice (and once from another directory in between): same answer. A working directory reached through a link and back (a/l/.. with l pointing elsewhere; decoys at the textually cleaned place; entries that are links to a file and to a directory): six patterns. Crowded and deep directories: one directory holding 255..4 097 (thorough ..20 011) entries, counts on both sides of 256, 1 024, 2 048, 4 096, files and sub-directories mixed, asked with wildcard and literal last and middle segments, and a chain of twelve directory levels asked literally and star by star; floor: a list of more than 2 048 files compared. Oracle: reference glob (segment-wise, backtracking '*') over the harness's own record of the tree; result sets compared after filepath.Clean; duplicates and listed directories are violations. Non-trivial = pattern containing '*' that selects a non-empty proper subset; distinct by (tree, pattern).", plen)
 	r.Assumptions = []string{
 		"excluded as the property says: directory segments made only of stars, '.' and '..' segments",
 		"a doubled separator counts as one (as in any path); a trailing separator leaves an empty LAST segment, which matches only the empty name, i.e. no file",
@@ -407,6 +407,66 @@ func C20(r *drv.Run) {
 		}
 		if r.NViolations() == 0 && r.Counter("lists_of_more_than_2048_files") == 0 {
 			r.Inconclusive("coverage floor: no list of more than 2048 files was compared")
+		}
+	}
+	// a working directory reached THROUGH A LINK AND BACK (a/l/.. where l points to a directory elsewhere): the place it
+	// denotes is the parent of the link's target, not what is left after striking out "l/.." - entries there that are
+	// links themselves are judged where they are
+	{
+		base := filepath.Join(r.WorkDir, "c20", "backlink")
+		os.MkdirAll(filepath.Join(base, "a"), 0o755)
+		os.MkdirAll(filepath.Join(base, "b", "c"), 0o755)
+		os.Symlink("../b/c", filepath.Join(base, "a", "l"))
+		os.WriteFile(filepath.Join(base, "b", "target.txt"), []byte("x"), 0o644)
+		os.Symlink("target.txt", filepath.Join(base, "b", "ln.txt"))
+		os.Symlink("c", filepath.Join(base, "b", "d.txt"))
+		os.WriteFile(filepath.Join(base, "b", "c", "inner.txt"), []byte("x"), 0o644)
+		// decoys at the place a textual clean-up of the working directory would name
+		os.WriteFile(filepath.Join(base, "a", "d.txt"), []byte("x"), 0o644)
+		os.WriteFile(filepath.Join(base, "a", "only-here.txt"), []byte("x"), 0o644)
+		cwd := filepath.Join(base, "a", "l") + "/.."
+		cases := []struct {
+			pat  string
+			want []string
+		}{
+			{"*.txt", []string{"ln.txt", "target.txt"}},
+			{"l*", []string{"ln.txt"}},
+			{"d*", nil},
+			{"c/*.txt", []string{"inner.txt"}},
+			{"*/inner.txt", []string{"inner.txt", "inner.txt"}},
+			{"only*", nil},
+		}
+		r.Exec(len(cases), drv.ExecOpts{Batch: 3}, func(i int) *drv.Item {
+			cs := cases[i]
+			c := wire.Case{Op: "glob", Pattern: cs.pat, Dir: cwd}
+			return &drv.Item{Case: c, Check: func(res *wire.Result) {
+				r.Eval(1)
+				if res.Died || res.Panic != nil {
+					msg, frame := firstLines(res.Stderr, 3), ""
+					if res.Panic != nil {
+						msg, frame = res.Panic.Msg, res.Panic.Frame
+					}
+					r.Violate(&drv.Violation{Sig: "glob-panicked:" + frame, Panic: msg, Frame: frame, Case: &c, Detail: map[string]any{"pattern": cs.pat, "working_directory": cwd}})
+					return
+				}
+				var got []string
+				for _, f := range res.Files {
+					got = append(got, filepath.Base(f))
+				}
+				sort.Strings(got)
+				want := append([]string{}, cs.want...)
+				sort.Strings(want)
+				if fmt.Sprint(got) != fmt.Sprint(want) {
+					r.Violate(&drv.Violation{Sig: "file-list-differs:working-directory-through-a-link-and-back", Case: &c,
+						Detail: map[string]any{"pattern": cs.pat, "working_directory": cwd, "expected_names": fmt.Sprint(want), "observed": fmt.Sprint(res.Files)}})
+					return
+				}
+				r.Count("patterns_from_a_directory_reached_through_a_link_and_back", 1)
+			}}
+		})
+		os.RemoveAll(base)
+		if r.NViolations() == 0 && r.Counter("patterns_from_a_directory_reached_through_a_link_and_back") == 0 {
+			r.Inconclusive("coverage floor: patterns_from_a_directory_reached_through_a_link_and_back = 0")
 		}
 	}
 	// the same selection observed end to end: the command line tool run inside the tree with the pattern, alone and
